@@ -172,7 +172,12 @@ def encode_rot(spec, rep):
     if rep == "dcm":
         return list(ref.dcm_param(ref.rodrigues(ax, th)))
     if rep == "euler":
-        return list(ref.R_to_euler321(ref.rodrigues(ax, th)))
+        R = ref.rodrigues(ax, th)
+        if 1.0 - abs(R[2, 0]) < 1e-7:
+            # exact pole / lost accuracy of the generic formulas: the element is outside every check's domain
+            from .harness import Discard
+            raise Discard()
+        return list(ref.R_to_euler321(R))
     raise ValueError(rep)
 
 
